@@ -20,9 +20,9 @@ import (
 // so the summary is exact for the byte at the start of a rune.
 
 type emitOutcome struct {
-	Raw     bool   // the byte stays in the raw segment (copied verbatim later)
-	Emit    []int  // constant bytes appended (after the optional flush of the pending raw segment)
-	Unknown bool   // something non-constant other than the raw flush was appended
+	Raw     bool              // the byte stays in the raw segment (copied verbatim later)
+	Emit    []int             // constant bytes appended (after the optional flush of the pending raw segment)
+	Unknown bool              // something non-constant other than the raw flush was appended
 	Flags   map[string]string // boolean locals assigned in the arm: name -> "true"/"false"
 	Path    string
 }
